@@ -187,6 +187,25 @@ Definition ax_refined (a : axis) (i : Z) : bool :=
       else true
   end.
 
+(* GridAtLevel.refined_indices: np.mgrid[tuple(slice(0, sh) for sh in self.shape)];
+   OpenGridAtLevel.refined_indices: np.mgrid[tuple(slice(pp, sh - pp) for sh, pp in zip(self.shape, self.padding))];
+   both raise IndexError when self.splits is None (model: no indices).  np.mgrid = C-ordered box;
+   MGridAtLevel.refined_indices = outer product of the grids' boxes in grid order = box over the
+   concatenated axes. *)
+Definition ax_refined_range (a : axis) : list Z :=
+  match a_split a with
+  | None => []
+  | Some _ =>
+      if a_open a then
+        match a_pad a with Some p => map (fun k => p + k) (zrange (a_shape a - 2 * p)) | None => [] end
+      else zrange (a_shape a)
+  end.
+Definition refined_indices (axes : list axis) : list (list Z) := cart (map ax_refined_range axes).
+(* _is_index_refined: reduce(operator.mul, ((ii >= pp) * (ii < sh - pp) ...), 1); regular: ones / zeros
+   when splits is None; MGrid: product over the grids *)
+Definition is_index_refined (axes : list axis) (idx : list Z) : bool :=
+  forallb (fun b => b) (map2 ax_refined axes idx).
+
 (* ---------------------------------------------------------------- flat grids *)
 Record flat := mkFlat {
   f_axes : list axis;                  (* grid_at_level *)
@@ -392,3 +411,10 @@ Definition chk_flat_coord2index (bs : list base) (level : nat) (serial : bool) (
 Definition chk_flat_coord2index_plain (bs : list base) (level : nat) (serial : bool) (coords : list (list Q))
            (obs_flat : list Z) : bool :=
   zl_eqb (map (fun c => fst (flat_coord2index (flat_at bs level serial) c)) coords) obs_flat.
+
+(* round 7: _is_index_refined on probes (in and out of range) and, on small levels, the complete
+   refined_indices() box in C order *)
+Definition chk_is_refined (bs : list base) (level : nat) (probes : list (list Z)) (obs : list bool) : bool :=
+  list_eqb Bool.eqb (map (is_index_refined (grid_axes bs level)) probes) obs.
+Definition chk_refined_indices (bs : list base) (level : nat) (obs : list (list Z)) : bool :=
+  zll_eqb (refined_indices (grid_axes bs level)) obs.
